@@ -745,9 +745,16 @@ func (m *monitor) notif(n *pb.Notification) (res callResult, mm *mismatch) {
 	if haveBefore && haveAfter {
 		growth = suppAfter - suppBefore
 	}
-	if int64(accepted-fedUpd) != growth {
+	// The returned error list does not say which part failed: should a delete
+	// ever report an error, the count of accepted updates is only bounded.
+	maxAccepted := accepted
+	if !pre.GetAtomic() && nDel > 0 && res.nErrs > 0 && pre.GetPrefix() != nil && haveBefore {
+		maxAccepted = nUpd
+	}
+	if got := int64(fedUpd) + growth; got < int64(accepted) || got > int64(maxAccepted) {
 		return res, &mismatch{"suppress-accounting", fmt.Sprintf("%q: %d update(s) accepted (of %d, %d error(s) returned), %d update entries fed, suppressed counter grew by %d — accepted minus fed must equal the growth", showNotif(pre), accepted, nUpd, res.nErrs, fedUpd, growth)}
 	}
+	accepted = fedUpd + int(growth)
 	if !m.ed && growth != 0 {
 		return res, &mismatch{"suppressed-with-emulation-off", fmt.Sprintf("%q: suppressed counter grew by %d although event-driven emulation is disabled", showNotif(pre), growth)}
 	}
@@ -1766,9 +1773,9 @@ func body(r *vlib.Run) {
 func main() {
 	vlib.Main(&vlib.Spec{
 		ID: "C03",
-		Rule: "seeded histories of 25 (thorough 50) steps over 2-3 targets: single / multi-update+delete / atomic / exact, subtree and wildcard delete notifications, Reset, Remove, re-Add, malformed and resubmitted notifications, event-driven emulation on or off per history; " +
-			"prefixes come from a pool of shared *pb.Path objects whose elem/element slices have spare capacity (shared object, new struct on the shared slice, subslice of a longer shared prefix, private copy). After every call on the real cache: feed replayed onto a shadow and compared with Query of every target, accepted/fed/suppressed accounting, withholding justified, atomic whole, caller's message and pool objects (backing arrays included) unchanged, retained delete leaves unchanged; a twin cache gets the same history split into singles and feed groups + content are compared. " +
-			"Modes mixed-encoding / path-origin / kind-flip add one input class each (signature suffix). A history counts as distinct non-trivial when the oracle judged at least one fed update, one rejected update, one announced removal and one multi-notification (with emulation on also one suppression); hashed by mode, emulation flag and the rendered operation list.",
+		Rule: "seeded histories of 25 (thorough 50) steps over 2-3 targets: single / multi-update+delete / atomic / exact, subtree and wildcard delete notifications, bursts of sibling updates carrying one prefix object, Reset, Remove, re-Add, malformed and resubmitted notifications, event-driven emulation on or off per history; " +
+			"prefixes come from a pool of shared *pb.Path objects whose elem/element slices have spare capacity (shared object, new struct on the shared slice, subslice of a longer shared prefix, private copy). After every call on the real cache: feed replayed onto a shadow and compared with Query of every target (and of '*'), accepted/fed/suppressed accounting, withholding justified, atomic whole, caller's message and pool objects (backing arrays included) unchanged, retained delete leaves unchanged; a twin cache gets the same history split into singles and feed groups + content are compared. " +
+			"Mode history: 4000 (thorough 80000) histories of plain input; modes mixed-encoding 600 (8000), path-origin 400 (4000), kind-flip 400 (4000) add one input class each (signature suffix). A history counts as distinct non-trivial when the oracle judged at least one fed update, one rejected update, one announced removal and one multi-notification (with emulation on also one suppression); hashed by mode, emulation flag and the rendered operation list.",
 		Assumptions: []string{
 			"a consumer replays the feed with the index rule of subscribe.Server.Update: target + origin of the prefix, then prefix and path elements (model.Shadow, model.MatchQ for deletes)",
 			"'value unchanged' is judged with proto.Equal on the TypedValue; value.Equal (the code's test) is at most as wide",
